@@ -341,6 +341,11 @@ func runHistories(r *ev.Run) {
 		// a vault at genesis: funds held by a module account with a withdraw hook, actions that execute inner messages
 		variants = append(variants, chain.GenesisOptions{Vault: true, EpochInterval: 3})
 	}
+	if prop == "C05" {
+		// a compute runtime and a minimum transact balance: payments into the (empty) runtime account can
+		// fail on the destination side after the source was debited
+		variants = append(variants, chain.GenesisOptions{Runtime: true, RtGroupSize: 2, EpochInterval: 3, MinTransactBalance: 10, NodeExpiration: 12})
+	}
 	if prop == "C05" && r.Thorough() {
 		variants = append(variants, chain.GenesisOptions{MinTransactBalance: 10, LastBlockFees: 7, EpochInterval: 2})
 	}
